@@ -500,6 +500,7 @@ func ruleOPS1(c *Ctx) []Ob {
 		return o.list
 	}
 	cases := c.opCases(sat, "UnaryCriteria", "OpType")
+	table := c.opTable(sat)
 	if _, dyn := m.built[-1]; dyn {
 		o.add(UNDECIDED, "constructor/non-constant-op", relPath(c, m.built[-1][0].Pos()), "criteria constructed with a non-constant operator")
 	}
@@ -525,8 +526,18 @@ func ruleOPS1(c *Ctx) []Ob {
 		} else {
 			pos = relPath(c, m.literal[k][0].Pos())
 		}
-		if len(cases[k]) == 0 {
+		if len(cases[k]) == 0 && table[k] == nil {
 			o.add(VIOLATED, key, pos, "operator %s is constructed but UnaryCriteria.Satisfy has no case for it: such a criteria silently matches nothing", c.opName(k))
+		} else if table[k] != nil {
+			o.add(OK, key, pos, "constructed operator has an entry (%s) in the dispatch table of UnaryCriteria.Satisfy", c.fname(table[k]))
+			if inner := c.opCases(table[k], "UnaryCriteria", "OpType"); len(inner) > 0 {
+				k2 := "op " + c.opName(k) + "/routed to " + c.fname(table[k])
+				if len(inner[k]) == 0 {
+					o.add(VIOLATED, k2, pos, "the table routes %s to %s, whose inner switch has no case for it", c.opName(k), c.fname(table[k]))
+				} else {
+					o.add(OK, k2, pos, "inner switch of %s covers the routed operator", c.fname(table[k]))
+				}
+			}
 		} else {
 			o.add(OK, key, pos, "constructed operator has a case in UnaryCriteria.Satisfy")
 		}
@@ -598,14 +609,29 @@ func ruleOPS2(c *Ctx) []Ob {
 		}
 		return out
 	}
+	table := c.opTable(sat)
 	var ks []int64
 	for k := range cases {
 		ks = append(ks, k)
+	}
+	for k := range table {
+		if _, dup := cases[k]; !dup {
+			ks = append(ks, k)
+		}
 	}
 	sort.Slice(ks, func(i, j int) bool { return ks[i] < ks[j] })
 	for _, k := range ks {
 		var tas []*ssa.TypeAssert
 		var where []*ssa.Function
+		if table[k] != nil {
+			where = append(where, table[k])
+			// a table entry may be a small wrapper around the evaluator
+			for g := range c.staticReach(table[k]) {
+				if g != table[k] && c.pkgRel(g) == "query" {
+					where = append(where, g)
+				}
+			}
+		}
 		for _, e := range cases[k] {
 			body := e.to()
 			tas = append(tas, assertsIn(sat, func(b *ssa.BasicBlock) bool { return b == body || body.Dominates(b) })...)
@@ -680,4 +706,81 @@ func rulePANIC1(c *Ctx) []Ob {
 		}
 	}
 	return o.list
+}
+
+// opTable: operator dispatch by table. If fn indexes a package-level array/slice/map
+// of functions with UnaryCriteria.OpType, returns the function registered per
+// operator constant (read from the package initialiser).
+func (c *Ctx) opTable(fn *ssa.Function) map[int64]*ssa.Function {
+	var table *ssa.Global
+	for _, b := range fn.Blocks {
+		for _, in := range b.Instrs {
+			var base, idx ssa.Value
+			switch x := in.(type) {
+			case *ssa.IndexAddr:
+				base, idx = x.X, x.Index
+			case *ssa.Index:
+				base, idx = x.X, x.Index
+			case *ssa.Lookup:
+				base, idx = x.X, x.Index
+			default:
+				continue
+			}
+			isOp := false
+			for _, og := range origins(idx) {
+				if c.isFieldLoadOf(og, "query", "UnaryCriteria", "OpType") {
+					isOp = true
+				}
+			}
+			if !isOp {
+				continue
+			}
+			if g, ok := base.(*ssa.Global); ok {
+				table = g
+			} else if g := globalLoad(base); g != nil {
+				table = g
+			}
+		}
+	}
+	if table == nil || table.Pkg == nil {
+		return nil
+	}
+	out := map[int64]*ssa.Function{}
+	init := table.Pkg.Func("init")
+	if init == nil {
+		return nil
+	}
+	record := func(k int64, v ssa.Value) {
+		for _, og := range origins(v) {
+			if f := closureFn(og); f != nil {
+				out[k] = c.declared(f)
+			}
+		}
+	}
+	for _, b := range init.Blocks {
+		for _, in := range b.Instrs {
+			switch x := in.(type) {
+			case *ssa.Store:
+				ia, ok := x.Addr.(*ssa.IndexAddr)
+				if !ok {
+					continue
+				}
+				root := ia.X
+				if al, isAlloc := root.(*ssa.Alloc); isAlloc {
+					// literal built in a temporary, then copied/sliced into the global
+					_ = al
+				} else if g, isG := root.(*ssa.Global); !isG || g != table {
+					continue
+				}
+				if k, ok := constInt(ia.Index); ok {
+					record(k, x.Val)
+				}
+			case *ssa.MapUpdate:
+				if k, ok := constInt(x.Key); ok {
+					record(k, x.Value)
+				}
+			}
+		}
+	}
+	return out
 }
